@@ -222,7 +222,7 @@ site(FSW + "::error|unwrap|Option::unwrap(Option::as_ref(&RefMut::deref(&inner).
 alloc("receiver::objectreceiver::ObjectReceiver::init_blocks_partitioning|alloc|VecDeque::resize_with(&self.blocks, cmp::min((nb_blocks as usize), 2048), fn BlockDecoder::new)",
       "size = min(nb_blocks, MAX_PREALLOCATED_BLOCKS = 2048) empty BlockDecoders")
 alloc("receiver::objectreceiver::ObjectReceiver::push_to_block2|alloc|VecDeque::resize_with(&self.blocks, (block_offset + 1), fn BlockDecoder::new)",
-      "dominated by block_offset <= 2 * MAX_PREALLOCATED_BLOCKS", [("guard", "receiver::objectreceiver::ObjectReceiver::push_to_block2", r"block_offset <= \(2 \* 2048\)|block_offset <= 4096")])
+      "dominated by block_offset <= 2 * MAX_PREALLOCATED_BLOCKS", [("site_dom", "receiver::objectreceiver::ObjectReceiver::push_to_block2", r"VecDeque.*::resize_with$", r"block_offset <= \(2 \* 2048\)|block_offset <= 4096")])
 alloc("receiver::blockwriter::BlockWriter::init_decoder|alloc|Vec::resize(&self.buffer, <impl [T]>::len(&data), 0)",
       "scratch buffer of the size of the first decoded block, itself subject to the block allocation limit of push_to_block2")
 for d in ("DecompressDeflate", "DecompressGzip", "DecompressZlib"):
